@@ -189,6 +189,29 @@ def ill_posed_valves(rnd):
     return out
 
 
+def oscillating_controls(rnd):
+    """two pressure controls that contradict each other (close the by-pass when the pressure is high, open it when it is
+    low, with the open-pressure above the close-pressure): the status flips at every trial until the trial limit is exceeded -
+    a step that cannot be solved and must be reported as such"""
+    import c02
+    out = []
+    for k in range(3):
+        s = c02.base(9900 + k, "default")
+        s["patterns"] = {}
+        s["Dur"] = 3 * s["H"]
+        s["trials"] = rnd.choice([3, 5, 8])
+        s["nodes"] = [{"name": "R0", "type": "R", "elev": 0.0, "head": 50.0, "pat": ""}, c02.junction("J1", 0.0, [{"base": 0.03, "pat": ""}])]
+
+        def pipe(name, d, init):
+            return {"name": name, "type": "pipe", "a": "R0", "b": "J1", "len": 1000.0, "diam": d, "rough": 100.0, "minor": 0.0, "cv": False, "init": init}
+        s["links"] = [pipe("PA", 0.15, 1), pipe("PB", 0.3, 1)]
+        # with PB open the pressure at J1 is ~49 m, with PB closed ~25 m: both controls are triggered in turn
+        s["cctl"] = [{"node": "J1", "attr": "pressure", "rel": ">", "thr": 40.0, "link": "PB", "what": "status", "val": 0, "prio": 3},
+                     {"node": "J1", "attr": "pressure", "rel": "<", "thr": 35.0, "link": "PB", "what": "status", "val": 1, "prio": 3}]
+        out.append(s)
+    return out
+
+
 def main(tier, replay):
     ck = common.Check("C16", "fault_enumeration", tier)
     rnd = random.Random(common.SEED + 1616)
@@ -230,6 +253,7 @@ def main(tier, replay):
         # whatever cannot be solved must be reported the documented way
         import c09
         jobs += [("general", sc, 3) for sc in ill_posed_valves(rnd)]
+        jobs += [("general", sc, 3) for sc in oscillating_controls(rnd)]
         for i in range(24 if tier == "quick" else 500):
             jobs.append(("general", c09.multigraph_scenario(rnd, 9500 + i), 3 if tier == "quick" else 10))
     with cf.ProcessPoolExecutor(max_workers=common.NCPU) as ex:
@@ -244,6 +268,7 @@ def main(tier, replay):
     enc = []
     for c in cases:
         e = {k: c[k] for k in ("clean", "faulty", "tfail", "conv_err", "Rep")}
+        e["Dur"], e["H"] = int(c["scn"]["Dur"]), int(c["scn"]["H"])
         e["out"] = {k: bool(c["out"].get(k, False)) for k in ("returned", "raised", "err", "warned", "finite", "cols_ok",
                                                              "same_index", "timed_out")}
         if c.get("loose"):
